@@ -397,7 +397,9 @@ func (p *TemplateSignature) instantiate(pkg *Package, fn *internal.Elem, args []
 			if t.Kind() == types.UntypedInt {
 				switch constant.Val(nargs[i].CVal).(type) {
 				case *big.Int:
-					nargs[i].Type = pkg.utBigInt
+					if pkg.utBigInt != nil { // big-number types are optional configuration
+						nargs[i].Type = pkg.utBigInt
+					}
 				}
 			}
 		}
